@@ -409,6 +409,31 @@ func scenarios(thorough bool) []scenario {
 			addM([][]opSpec{{moduleOps[i/k], moduleOps[i%k]}, {moduleOps[j/k], moduleOps[j%k]}})
 		}
 	}
+	// first-time family: the shared scope has NO table of its own yet (configuration
+	// 1: the name is bound in the parent only, the child holds no value and no type);
+	// two and three operations that each may create a table lazily, on DIFFERENT
+	// names, so that a table dropped by a second creator is seen as a lost definition
+	firstOps := []opSpec{{Kind: "DefineType", Name: "a"}, {Kind: "DefineType", Name: "b"}, {Kind: "Define", Name: "a"}, {Kind: "Define", Name: "b"},
+		{Kind: "Type", Name: "b"}, {Kind: "GetTypeSymbols"}, {Kind: "GetValueSymbols"}, {Kind: "Copy"}}
+	addF := func(threads [][]opSpec) {
+		res = append(res, scenario{Cfg: 1, Threads: withVals(threads), Bound: -1})
+	}
+	nf := len(firstOps)
+	for i := 0; i < nf; i++ {
+		for j := i; j < nf; j++ {
+			addF([][]opSpec{{firstOps[i]}, {firstOps[j]}})
+			for l := j; l < nf; l++ {
+				addF([][]opSpec{{firstOps[i]}, {firstOps[j]}, {firstOps[l]}})
+			}
+		}
+	}
+	for i := 0; i < 4; i++ {
+		for j := 0; j < 4; j++ {
+			for l := 4; l < nf; l++ {
+				addF([][]opSpec{{firstOps[i], firstOps[l]}, {firstOps[j], firstOps[l]}})
+			}
+		}
+	}
 	// a look-up THROUGH the module a path lookup returned (four lock acquisitions:
 	// in two-thread scenarios, and next to two other operations)
 	pg := opSpec{Kind: "PathGet", Name: "a"}
